@@ -56,6 +56,11 @@ RULE = ('masks: circle (centred/off-centre), hexagon (both orientations, shifted
         'normalize, a copy / a rescaled copy of the mask, the same buffer refilled in place with another support, the '
         'order of the modes, the function called), every call compared with the model (= the answer of a fresh '
         'process) and with numpy lstsq on the modes of that call; '
+        'LARGE ARRAYS (4 per quick run, ~50 per thorough run + corpus/c12/big_and_high_modes.json): masks given by a '
+        'recipe, opd.size * len(modes) around and above 2**20 (0.9x .. 2x), both normalisations, fit / remove / compose, '
+        'oracle only; HIGH NOLL INDICES: modes drawn from 1..45 (unordered, gapped; permutations of 1..k), linear '
+        'independence judged with the harness\'s own reference Noll modes so that modes made dependent by the '
+        'implementation are reported instead of skipped; '
         'ARGUMENT FORMS (45 % of the single-call cases + corpus/c12/argument_forms.json): mask / opd as Fortran-ordered, '
         'strided or negatively strided views or nested lists, opd as float32 or integer array, modes as tuple / ndarray '
         '(int64, int32, uint8) / scalar / 0-d array, coefficients as tuple / ndarray, rho without theta (ValueError) and '
@@ -77,6 +82,8 @@ def model_cost(c):
     """rough estimate (seconds) of the extracted model's run time"""
     if c['op'] == 'history':
         return sum(model_cost(sub) for sub in substeps(c))
+    if isinstance(c['mask'], dict):
+        return float('inf')       # large arrays (given by a recipe): exact arithmetic is out of reach, oracle only
     if c['op'] == 'compose' or (c.get('expect_error') and c.get('opd_shape') != 'transposed'):
         return 0.1
     k = len(c['modes'])
@@ -97,8 +104,59 @@ DTYPES = {'float': float, 'int': int, 'bool': bool, 'uint8': np.uint8, 'int32': 
 
 def mask_np(c):
     """the mask as the caller holds it: the dtype is part of the case (float, int, bool, uint8, int32)"""
-    a = np.array([[float(fr(v)) for v in row] for row in c['mask']], dtype=float)
+    if isinstance(c['mask'], dict):
+        a = big_mask(c['mask'])
+    else:
+        a = np.array([[float(fr(v)) for v in row] for row in c['mask']], dtype=float)
     return a.astype(DTYPES[c.get('mask_dtype', 'float')])
+
+
+def big_mask(d):
+    """large masks are stored as a recipe (plain numpy, no lentil): circle / annulus / two circles, optional weight"""
+    n, m = d['shape']
+    rr, cc = np.mgrid[0:n, 0:m].astype(float)
+    a = np.zeros((n, m))
+    for (r0, c0, rad, rin) in d['discs']:
+        q = (rr - r0) ** 2 + (cc - c0) ** 2
+        a = np.maximum(a, ((q <= rad * rad) & (q >= rin * rin)) * float(d.get('weight', 1)))
+    return a
+
+
+# ---- reference Noll modes (harness-side, independent of lentil): used ONLY to decide whether the chosen modes are
+# linearly independent on the mask (the hypothesis of the property), never as expected values
+def ref_index(j):
+    n = 0
+    while (n + 1) * (n + 2) // 2 < j:
+        n += 1
+    r = j - n * (n + 1) // 2 - 1
+    seq, a = [], n % 2
+    if a == 0:
+        seq.append(0)
+        a = 2
+    while len(seq) < n + 1:
+        seq += [a, a]
+        a += 2
+    return (seq[r] if j % 2 == 0 else -seq[r]), n
+
+
+def ref_modes(p, modes, nrm):
+    lentil = C.import_lentil()
+    rho, theta = p['rho'], p['theta']
+    if rho is None:
+        rho, theta = lentil.zernike_coordinates(np.asarray(p['mask'], dtype=bool))
+    inside = (p['mask'] != 0).ravel()
+    B = np.zeros((len(modes), p['mask'].size))
+    for i, j in enumerate(modes):
+        m, n = ref_index(int(j))
+        am = abs(m)
+        R = np.zeros(rho.shape)
+        for k in range((n - am) // 2 + 1):
+            R += ((-1) ** k * math.factorial(n - k)
+                  / (math.factorial(k) * math.factorial((n + am) // 2 - k) * math.factorial((n - am) // 2 - k))) * rho ** (n - 2 * k)
+        ang = 1.0 if m == 0 else (np.cos(am * theta) if m > 0 else np.sin(am * theta))
+        norm = (math.sqrt(n + 1) * (math.sqrt(2) if m else 1.0)) if nrm else 1.0
+        B[i] = (norm * R * ang).ravel() * inside
+    return B
 
 
 def coeff_vals(c):
@@ -161,7 +219,12 @@ def prep(c):
         # the OPD is composed from coefficients that already carry the scale (nanometres in metres, ...)
         y = np.asarray(lentil.zernike_compose(mask, w, c.get('ynrm', True), rho, theta), dtype=float)
         if c.get('noise'):
-            y = y + np.array(c['noise'], dtype=float) / 8.0 * float(scale)
+            if isinstance(c['noise'], dict):      # large arrays: a recipe (index arithmetic), dyadic like the explicit lists
+                ii, jj = np.mgrid[0:y.shape[0], 0:y.shape[1]]
+                nz = ((3 * ii * ii + 5 * jj + c['noise']['seed'] * ii * jj) % 33 - 16).astype(float)
+            else:
+                nz = np.array(c['noise'], dtype=float)
+            y = y + nz / 8.0 * float(scale)
         if c.get('opd_shape') == 'transposed':
             y = np.ascontiguousarray(y.T)
         elif c.get('opd_shape') == 'short':
@@ -430,15 +493,18 @@ def gen_modes(rng, size, tier):
     if size == 'tiny':
         kmax, top = 2, 4
     elif size == 'small':
-        kmax, top = 4, 11
+        kmax, top = 4, rng.choice([11, 11, 15, 21])
     else:
-        kmax, top = (6 if tier == 'quick' else 9), 15
+        kmax, top = (6 if tier == 'quick' else 9), rng.choice([15, 15, 15, 28, 45])     # unordered, gapped, up to Z45
         if rng.random() < 0.2:
             kmax = 15
     k = min(rng.randint(1, kmax), top)
-    if t < 0.2:
+    if t < 0.12:
         modes = list(range(1, k + 1))
-    elif t < 0.3:
+    elif t < 0.24:
+        modes = list(range(1, k + 1))      # the leading modes 1..k in a different order
+        rng.shuffle(modes)
+    elif t < 0.32:
         modes = [rng.choice([2, 3, 4, 6, 11] if size != 'tiny' else [2, 3, 4])]
     else:
         modes = rng.sample(range(1, top + 1), k)
@@ -446,17 +512,19 @@ def gen_modes(rng, size, tier):
 
 
 def well_conditioned(c):
+    """are the Noll modes of the case linearly independent (cond <= COND_MAX) on its mask?  Decided with the harness's
+    own reference modes: a defect that makes lentil's modes dependent must not make the generator skip the case."""
     try:
         p = prep(c)
-        B = stacked_modes(c, p, c['modes'], p['nrm'])
-        B1 = B if p['nrm'] else stacked_modes(c, p, c['modes'], True)
     except Exception:
         return True        # the implementation failed on a well-formed call: keep the case, run_impl/oracle report it
-    if not (np.all(np.isfinite(B)) and np.all(np.isfinite(B1))):
-        return False
     try:
+        B = ref_modes(p, c['modes'], p['nrm'])
+        B1 = B if p['nrm'] else ref_modes(p, c['modes'], True)
+        if not (np.all(np.isfinite(B)) and np.all(np.isfinite(B1))):
+            return False
         return max(np.linalg.cond(B), np.linalg.cond(B1)) <= COND_MAX
-    except np.linalg.LinAlgError:
+    except (np.linalg.LinAlgError, ValueError, TypeError):
         return False
 
 
@@ -520,6 +588,49 @@ def gen_history(rng, size, kind, mask, modes):
     return c
 
 
+def gen_big(rng):
+    """arrays around and above 2**20 basis elements (opd.size * len(modes)): size thresholds, both normalisations;
+    the exact model is out of reach there, the oracle runs"""
+    k = rng.randint(2, 8)
+    target = (1 << 20) * rng.choice([1.1, 1.3, 2.0, 0.9])
+    n = int(math.sqrt(target / k) * rng.choice([1.0, 1.0, 0.8, 1.25]))
+    m = int(target / k / n) + 1
+    top = rng.choice([15, 15, 28, 45])
+    modes = rng.sample(range(1, top + 1), k)
+    if rng.random() < 0.3:
+        modes = sorted(modes)
+    kind = rng.choice(['circle', 'circle_off', 'annulus', 'twocircles'])
+    r = min(n, m)
+    if kind == 'circle':
+        discs = [[n // 2, m // 2, r * 0.45, 0]]
+    elif kind == 'circle_off':
+        discs = [[n // 2 + r // 8, m // 2 - r // 10, r * 0.3, 0]]
+    elif kind == 'annulus':
+        discs = [[n // 2, m // 2, r * 0.45, r * 0.15]]
+    else:
+        discs = [[n // 2, m // 4, r * 0.2, 0], [n // 2 + 3, 3 * m // 4, r * 0.2, 0]]
+    op = rng.choice(['fit', 'fit', 'fit', 'remove', 'compose'])
+    c = {'op': op, 'mask_kind': 'big-' + kind, 'mask': {'shape': [n, m], 'discs': discs}, 'modes': modes,
+         'coeffs': rnd_coeffs(rng, k), 'big': True}
+    if rng.random() < 0.3:
+        c['mask']['weight'] = rng.choice([2, 0.5])
+    else:
+        c['mask_dtype'] = rng.choice(['float', 'float', 'bool', 'uint8', 'int'])
+    if op != 'remove':
+        c['nrm'] = rng.random() < 0.5
+    if rng.random() < 0.3:
+        c['crd'] = rnd_crd(rng, n, m)
+    if rng.random() < 0.25:
+        c['scale'] = rng.choice(['1/1000000000', '1/1000000', '250'])
+    if op != 'compose':
+        c['ynrm'] = c.get('nrm', True) if rng.random() < 0.6 else (rng.random() < 0.5)
+        if rng.random() < 0.5:
+            c['extra'] = [rnd_frac(rng) if rng.random() < 0.5 else '0' for _ in range(rng.randint(1, 11))]
+        if rng.random() < 0.5:
+            c['noise'] = {'seed': rng.randint(1, 1000)}
+    return c
+
+
 def generate(rng, tier):
     n_cases = 100 if tier == 'quick' else 1500
     _tier[0] = tier
@@ -527,6 +638,17 @@ def generate(rng, tier):
     tries = 0
     while out < n_cases and tries < 20 * n_cases:
         tries += 1
+        if out % (25 if tier == 'quick' else 30) == 10 and STATS.get('big_pending') != out:
+            STATS['big_pending'] = out          # one attempt per slot
+            c = gen_big(rng)
+            if well_conditioned(c):
+                out += 1
+                STATS['generated'] += 1
+                STATS['big_oracle_only'] = STATS.get('big_oracle_only', 0) + 1
+                yield c
+            else:
+                STATS['skipped_ill_conditioned'] += 1
+            continue
         t = rng.random()
         size = 'tiny' if t < 0.2 else 'small' if t < 0.65 else 'large'
         tiny = size == 'tiny'
@@ -637,7 +759,7 @@ def nontrivial(c):
         return len(c['steps']) >= 2
     if c.get('expect_error'):
         return False
-    full = all(fr(v) != 0 for row in c['mask'] for v in row)
+    full = not isinstance(c['mask'], dict) and all(fr(v) != 0 for row in c['mask'] for v in row)
     return not full and (len(modes) >= 2 or modes != [1])
 
 
@@ -671,6 +793,8 @@ def enc_table(p, entries, crdflag):
 def encode(c):
     if not c.get('_corpus') and model_cost(c) > MODEL_BUDGET_S[_tier[0]]:
         return None
+    if isinstance(c['mask'], dict) or c.get('oracle_only'):
+        return None       # large arrays / cases marked too expensive for exact arithmetic: the oracle decides
     if c.get('dependent'):
         return None       # repeated modes: a dependent family is outside the solver contract; the oracle decides
     try:
@@ -727,9 +851,29 @@ def decode(c, ints):
 
 
 # ------------------------------------------------------------------ implementation side
+class Lazy(str):
+    """a large result array: kept in memory for the oracle, written as a one-line summary (a JSON string) into
+    evidence and replay files"""
+    def __new__(cls, a):
+        obj = str.__new__(cls, f'<array shape={a.shape} max|.|={float(np.max(np.abs(a))) if a.size else 0.0!r}>')
+        obj.a = a
+        return obj
+
+
+def unwrap(x):
+    return x.a if isinstance(x, Lazy) else x
+
+
 def run_impl(c):
     if c['op'] == 'history':
         return run_history(c)
+    res = run_impl_single(c)
+    if isinstance(res, dict):
+        res = {k: (Lazy(v) if isinstance(v, np.ndarray) and v.size > 20000 else v) for k, v in res.items()}
+    return res
+
+
+def run_impl_single(c):
     lentil = C.import_lentil()
     try:
         p = prep(c)
@@ -780,8 +924,8 @@ TOL_SUM = 1e-12     # a k-term float sum against the exact sum, relative to sum_
 
 def close(a, b, scale, what, tol=TOL):
     """max |a - b| <= tol * scale; scale is always the magnitude of the EXPECTED data (no absolute floor)"""
-    a = np.asarray(a, dtype=float)
-    b = np.asarray(b, dtype=float)
+    a = np.asarray(unwrap(a), dtype=float)
+    b = np.asarray(unwrap(b), dtype=float)
     if a.shape != b.shape:
         return f'{what}: shapes differ: {a.shape} vs {b.shape}'
     if a.size == 0:
@@ -892,11 +1036,17 @@ def oracle(c, impl):
     nrm = True if c['op'] == 'remove' else p['nrm']
     B = stacked_modes(c, p, modes, nrm)              # float64 stack of zernike(mask, j): the reference basis
     cond = float(np.linalg.cond(B)) if B.size else 1.0
+    if not c.get('dependent') and len(set(modes)) == len(modes) and B.size:
+        cref = float(np.linalg.cond(ref_modes(p, modes, nrm)))
+        if cref <= COND_MAX and not (cond <= 100 * COND_MAX):
+            return (f'the modes {modes} delivered by zernike() are linearly dependent on this mask (condition number '
+                    f'{cond:.3g}) although the Noll modes are independent there (condition number {cref:.3g}): '
+                    f'fit / compose / remove cannot be mutually inverse')
     bn = float(np.max(np.abs(B))) or 1.0
     cs = sum_scale(want, B)                          # expected magnitude of sum_i c_i Z_{modes_i}
     if c['op'] == 'compose':
         w = p['w']
-        opd = np.asarray(impl['arr'])
+        opd = np.asarray(unwrap(impl['arr']))
         if np.any(opd[~inside] != 0):
             return 'composed OPD is not zero outside the mask'
         Z = [np.asarray(lentil.zernike(mask, j + 1, nrm, p['rho'], p['theta']), dtype=float) for j in range(len(w))]
@@ -946,7 +1096,7 @@ def oracle(c, impl):
             return m
         return close(impl['fit_junk'], cf, sc, 'fit depends on OPD values outside the mask')
     if c['op'] == 'remove':
-        r = np.asarray(impl['arr'])
+        r = np.asarray(unwrap(impl['arr']))
         fs = max(s, float(np.max(np.abs(impl['fit_y']))))
         if impl.get('input_changed'):
             return 'zernike_remove modified its input'
